@@ -622,8 +622,8 @@ Qed.
     nor the claimed Committer/Endorser index are. The model's [receive] is written for exactly this
     shape; if the source changes it, this lemma stops compiling and the model must be revisited. *)
 Lemma intake_shape_current :
-  recv_verifies_sender_sig = true /\ intake_checks_endorser_sigs = false /\
-  intake_checks_claimed_identity = false.
+  recv_verifies_sender_sig = true /\ own_sigs_mandatory = true /\
+  intake_checks_endorser_sigs = false /\ intake_checks_claimed_identity = false.
 Proof. repeat split; reflexivity. Qed.
 
 (** * Witnesses *)
